@@ -14,25 +14,32 @@
 static int getNextLink(KSI_HashChainLinkList *list, bool getRight, size_t *pos, KSI_HashChainLink **link)
 __CPROVER_requires(list == NULL || list == &g16_list)
 __CPROVER_requires(pos != NULL && link != NULL && !getRight)
-__CPROVER_requires(list == NULL || (*pos == g16.calls && *pos <= g16_len && !g16.fail && !g16.na && g16_len <= G16_MAX_LIST))
-__CPROVER_requires((g16_link.imprint == NULL || g16_link.imprint == &g_vr_h[VR_H_LINK]) && 0 <= g_vr_h_alg[VR_H_LINK] && g_vr_h_alg[VR_H_LINK] <= 255)
-__CPROVER_ensures(list == NULL || *link == NULL || __CPROVER_pointer_equals(*link, &g16_link))
+__CPROVER_requires(list == NULL || (*pos == g16.calls && *pos <= g16_len && !g16.fail && !g16.na && g16_len <= G16_MAX_LIST && g16.lefts <= g16.calls))
+__CPROVER_requires((g16.has_imprint ? g16_link.imprint == &g_vr_h[VR_H_LINK] : g16_link.imprint == NULL) && 0 <= g_vr_h_alg[VR_H_LINK] && g_vr_h_alg[VR_H_LINK] <= 255)
+/* (audit builderY) BOTH pointer outputs are stated first and unconditionally with __CPROVER_pointer_equals: dfcc havocs a pointer-typed
+ * assigns target of a replaced contract with ONE symbol per target shared by all calls of the run, and a loop under a loop contract runs
+ * its first iteration concretely and then the step iteration on the same path.  The former clauses
+ * '*link == NULL || pointer_equals(*link, &g16_link)' / 'imprint == NULL || pointer_equals(imprint, ..)' tested that shared value: 'a left
+ * link at the first iteration, list exhausted (or a link without imprint) at a later one' was infeasible (REACH guards in C01.int16). */
+__CPROVER_ensures(__CPROVER_pointer_equals(*link, list == NULL ? (void *)__CPROVER_old(*link) : (*pos < g16_len ? (void *)&g16_link : (void *)0)))
+__CPROVER_ensures(__CPROVER_pointer_equals(g16_link.imprint, g16.has_imprint ? (void *)&g_vr_h[VR_H_LINK] : (void *)0))
 __CPROVER_ensures(IMPLIES(list == NULL, __CPROVER_return_value == KSI_INVALID_ARGUMENT && *pos == __CPROVER_old(*pos) && g16.calls == __CPROVER_old(g16.calls) && !g16.fail && !g16.na))
 __CPROVER_ensures(IMPLIES(list != NULL, __CPROVER_return_value == KSI_OK))
 /* found: the element at *pos, a left link, the one handed out last; everything skipped was a right link */
 __CPROVER_ensures(IMPLIES(list != NULL && *link != NULL, g16.last_left && g16_link.isLeft != 0 && *pos + 1 == g16.calls && *pos < g16_len && *pos >= __CPROVER_old(*pos)))
 /* ... and the monitor's verdict so far stems from that link alone: no imprint - cannot be judged; else obsolete at publication time or not */
-__CPROVER_ensures(list == NULL || g16_link.imprint == NULL || __CPROVER_pointer_equals(g16_link.imprint, &g_vr_h[VR_H_LINK]))
 __CPROVER_ensures(0 <= g_vr_h_alg[VR_H_LINK] && g_vr_h_alg[VR_H_LINK] <= 255)
 __CPROVER_ensures(IMPLIES(list != NULL && *link != NULL, IFF(g16.na, g16_link.imprint == NULL) &&
 	IFF(g16.fail, g16_link.imprint != NULL && spec_alg_obsolete_rule_fails(g16_status[g_vr_h_alg[VR_H_LINK]] & 3))))
 /* none: the list is exhausted, no left link was passed over */
 __CPROVER_ensures(IMPLIES(list != NULL && *link == NULL, *pos == g16_len && g16.calls == g16_len && !g16.fail && !g16.na))
+/* (audit builderY) count of left links handed out: +1 when a link is found, unchanged otherwise */
+__CPROVER_ensures(g16.lefts == __CPROVER_old(g16.lefts) + ((list != NULL && *link != NULL) ? 1 : 0))
 __CPROVER_assigns(*pos, *link, G16_FRAME);
 
 int KSI_VerificationRule_CalendarChainHashAlgorithmObsoleteAtPubTime(KSI_VerificationContext *info, KSI_RuleVerificationResult *result)
-__CPROVER_requires(VR_PRE(info, result) && g16.calls == 0 && !g16.fail && !g16.na && g16_len <= G16_MAX_LIST)
-__CPROVER_requires((g16_link.imprint == NULL || g16_link.imprint == &g_vr_h[VR_H_LINK]) && 0 <= g_vr_h_alg[VR_H_LINK] && g_vr_h_alg[VR_H_LINK] <= 255)
+__CPROVER_requires(VR_PRE(info, result) && g16.calls == 0 && g16.lefts == 0 && !g16.fail && !g16.na && g16_len <= G16_MAX_LIST)
+__CPROVER_requires((g16.has_imprint ? g16_link.imprint == &g_vr_h[VR_H_LINK] : g16_link.imprint == NULL) && 0 <= g_vr_h_alg[VR_H_LINK] && g_vr_h_alg[VR_H_LINK] <= 255)
 __CPROVER_ensures(VR_POST(g16_exp(info), result))
 /* OK only after the whole chain was read */
 __CPROVER_ensures(IMPLIES(result != NULL && VR_INFO_OK(info) && __CPROVER_return_value == KSI_OK && result->resultCode == KSI_VER_RES_OK, g16.calls == g16_len && !g16.fail && !g16.na))
